@@ -1,95 +1,8 @@
 (* Opt.opt produces an optimized form in the sense of OptRel.arel; with the simulation theorem of
-   Sem/OptProofs.v this gives the soundness of the optimizer model. *)
-From P2 Require Import Base.Prelude Base.PreludeProofs Sem.Num Sem.Syntax Sem.Ops Sem.Lib Sem.Ref Sem.Gen Sem.Opt Sem.OptRel Sem.OptRelProofs Sem.OptOpsProofs Sem.OptLibProofs Sem.OptProofs.
+   Sem/OptProofs.v this gives the soundness of the optimizer model.  What is run at Generate time is
+   tied to the reference semantics by the C01 theorems (Sem/OptWf.v). *)
+From P2 Require Import Base.Prelude Base.PreludeProofs Sem.Num Sem.Syntax Sem.Ops Sem.Lib Sem.Ref Sem.Gen Sem.Sim Sem.RelProofs Sem.GenProofs Sem.RefMono Sem.Opt Sem.OptRel Sem.OptRelProofs Sem.OptOpsProofs Sem.OptLibProofs Sem.OptProofs Sem.OptWf.
 Require Import Lia.
-
-(* ---------- application of closures at Generate time vs. in the reference semantics ---------- *)
-
-(* whenever app1 answers Ok v, app2 answers the same unless it runs out of fuel *)
-Definition app_agrees (app1 app2 : value -> list value -> res value) : Prop :=
-  forall c args v, app1 c args = Ok v -> app2 c args <> OOF -> app2 c args = Ok v.
-
-Section Agree.
-Variables app1 app2 : value -> list value -> res value.
-Hypothesis HA : app_agrees app1 app2.
-
-Lemma bind_ok_inv {A B} (r : res A) (k : A -> res B) v : bind r k = Ok v -> exists a, r = Ok a /\ k a = Ok v.
-Proof. destruct r; simpl; try discriminate. eauto. Qed.
-
-Lemma bind_not_oof {A B} (r : res A) (k : A -> res B) : bind r k <> OOF -> r <> OOF.
-Proof. intros H E. rewrite E in H. auto. Qed.
-
-Lemma map_app_agrees f l ys :
-  map_app app1 f l = Ok ys -> map_app app2 f l <> OOF -> map_app app2 f l = Ok ys.
-Proof.
-  revert ys. induction l as [|x l IH]; simpl; intros ys H N; auto.
-  apply bind_ok_inv in H. destruct H as (y & E1 & H).
-  apply bind_ok_inv in H. destruct H as (ys' & E2 & H). inv H.
-  pose proof (HA _ _ _ E1 (bind_not_oof _ _ N)) as E3. rewrite E3 in *. simpl in *.
-  rewrite (IH _ E2 (bind_not_oof _ _ N)). reflexivity.
-Qed.
-
-Lemma accept_app_agrees f l ys :
-  accept_app app1 f l = Ok ys -> accept_app app2 f l <> OOF -> accept_app app2 f l = Ok ys.
-Proof.
-  revert ys. induction l as [|x l IH]; simpl; intros ys H N; auto.
-  apply bind_ok_inv in H. destruct H as (y & E1 & H).
-  pose proof (HA _ _ _ E1 (bind_not_oof _ _ N)) as E3. rewrite E3 in *. simpl in *.
-  destruct y; try discriminate.
-  apply bind_ok_inv in H. destruct H as (ys' & E2 & H). inv H.
-  rewrite (IH _ E2 (bind_not_oof _ _ N)). reflexivity.
-Qed.
-
-Lemma fold_app_agrees f l acc v :
-  fold_app app1 f acc l = Ok v -> fold_app app2 f acc l <> OOF -> fold_app app2 f acc l = Ok v.
-Proof.
-  revert acc. induction l as [|x l IH]; simpl; intros acc H N; auto.
-  apply bind_ok_inv in H. destruct H as (y & E1 & H).
-  pose proof (HA _ _ _ E1 (bind_not_oof _ _ N)) as E3. rewrite E3 in *. simpl in *. auto.
-Qed.
-
-Lemma index_where_agrees f l i z :
-  index_where app1 f l i = Ok z -> index_where app2 f l i <> OOF -> index_where app2 f l i = Ok z.
-Proof.
-  revert i. induction l as [|x l IH]; simpl; intros i H N; auto.
-  apply bind_ok_inv in H. destruct H as (y & E1 & H).
-  pose proof (HA _ _ _ E1 (bind_not_oof _ _ N)) as E3. rewrite E3 in *. simpl in *.
-  destruct y; try discriminate. destruct b; auto.
-Qed.
-
-Lemma run_list_method_agrees m l args v :
-  run_list_method app1 m l args = Ok v -> run_list_method app2 m l args <> OOF ->
-  run_list_method app2 m l args = Ok v.
-Proof.
-  unfold run_list_method.
-  repeat match goal with
-         | |- context [if str_eqb m ?n then _ else _] => destruct (str_eqb m n)
-         end; auto.
-  - destruct args as [|f [|? ?]]; auto. destruct (is_func f 1); auto. intros H N.
-    apply bind_ok_inv in H. destruct H as (ys & E & H).
-    rewrite (map_app_agrees _ _ _ E (bind_not_oof _ _ N)). exact H.
-  - destruct args as [|f [|? ?]]; auto. destruct (is_func f 1); auto. intros H N.
-    apply bind_ok_inv in H. destruct H as (ys & E & H).
-    rewrite (accept_app_agrees _ _ _ E (bind_not_oof _ _ N)). exact H.
-  - destruct args as [|f [|? ?]]; auto. destruct (is_func f 2); auto. destruct l; auto.
-    apply fold_app_agrees.
-  - destruct args as [|i [|f [|? ?]]]; auto. destruct (is_func f 2); auto.
-    apply fold_app_agrees.
-  - destruct args as [|f [|? ?]]; auto. destruct (is_func f 1); auto. intros H N.
-    apply bind_ok_inv in H. destruct H as (ys & E & H).
-    rewrite (index_where_agrees _ _ _ _ E (bind_not_oof _ _ N)). exact H.
-  - destruct args as [|f [|? ?]]; auto. destruct (is_func f 1); auto. intros H N.
-    apply bind_ok_inv in H. destruct H as (ys & E & H).
-    rewrite (index_where_agrees _ _ _ _ E (bind_not_oof _ _ N)). exact H.
-Qed.
-
-Lemma run_method_agrees rv m args v :
-  run_method app1 rv m args = Ok v -> run_method app2 rv m args <> OOF -> run_method app2 rv m args = Ok v.
-Proof.
-  destruct rv; cbn [run_method]; auto. apply run_list_method_agrees.
-Qed.
-
-End Agree.
 
 (* ---------- the rewrite steps of the optimizer preserve the meaning ---------- *)
 
@@ -203,6 +116,26 @@ Qed.
 
 End Steps.
 
+(* the redexes of the optimizer have no free names *)
+Lemma closed_op op a b : closed (AOp op (AConst a) (AConst b)).
+Proof. intros x. reflexivity. Qed.
+Lemma closed_unary op c : closed (AUnary op (AConst c)).
+Proof. intros x. reflexivity. Qed.
+Lemma closed_list vs : closed (AList (map AConst vs)).
+Proof. intros x. rewrite fv_list. apply existsb_consts. Qed.
+Lemma closed_index a b : closed (AIndex (AConst a) (AConst b)).
+Proof. intros x. reflexivity. Qed.
+Lemma closed_map vs : closed (AMap (map (fun e => (fst e, AConst (snd e))) vs)).
+Proof. intros x. rewrite fv_map. apply existsb_const_entries. Qed.
+Lemma closed_member a k : closed (AMember (AConst a) k).
+Proof. intros x. reflexivity. Qed.
+Lemma closed_static f cs : closed (AStatic f (map AConst cs)).
+Proof. intros x. rewrite fv_static. apply existsb_consts. Qed.
+Lemma closed_call c cs : closed (ACall (AConst c) (map AConst cs)).
+Proof. intros x. rewrite fv_call. cbn [fv orb]. apply existsb_consts. Qed.
+Lemma closed_method c m cs : closed (AMethod (AConst c) m (map AConst cs)).
+Proof. intros x. rewrite fv_method. cbn [fv orb]. apply existsb_consts. Qed.
+
 (* ---------- Opt.opt produces an optimized form ---------- *)
 
 Section OptArel.
@@ -218,30 +151,45 @@ Local Notation opt := (Opt.opt fl known fuel).
 (* what the flags must guarantee (OptRel.flags_ok with the exact regrouping law) *)
 Hypothesis Hfold : fold_agrees fl.
 Hypothesis Hreg : regroup_exact_ok fl.
-(* the closure-literal rule is switched off (no closure handler): see optimize_sound_partial_* *)
-Hypothesis Hclo : f_closure fl = false.
+(* the strict optimizer: folds only to first-order constants (and closure literals to closures) *)
+Hypothesis Hstrict : f_strict fl = true.
 (* the method rule leaves closure fields alone (the repaired code) *)
 Hypothesis Hfc : f_fieldcheck fl = true.
 Hypothesis Hmap : f_map fl = true.
-(* code run at Generate time (Gen.exec on a fresh stack) agrees with the reference semantics:
-   this is the subject of C01 (exec_sim) together with fuel monotonicity *)
-Hypothesis HG : forall n, app_agrees (gapp known fuel) (r_app (eval n)).
 
 Lemma is_const_spec a v : is_const a = Some v -> a = AConst v.
 Proof. destruct a; simpl; intros H; inv H; reflexivity. Qed.
 
+Lemma strict_ok_fo v : strict_ok fl v = true -> fo v = true.
+Proof. unfold strict_ok. rewrite Hstrict. auto. Qed.
+
+Lemma konst_side orig v : sidep orig -> sidep (konst fl orig v).
+Proof.
+  intros H. unfold konst. destruct (strict_ok fl v) eqn:E; auto.
+  cbn [sidep]. apply fo_cwf. apply strict_ok_fo. exact E.
+Qed.
+
+(* a fold: the redex t is closed and means the constant *)
+Lemma konst_arel s a t v :
+  arel s a t -> closed t -> seq t (AConst v) -> arel s a (konst fl t v).
+Proof.
+  intros Ha Hc Hs. unfold konst. destruct (strict_ok fl v); auto.
+  eapply ar_step; eauto.
+Qed.
+
 Lemma seq_call cv cs v :
+  cwf cv -> Forall cwf cs -> fo v = true ->
   (match cv with VClo ps _ _ _ => Nat.eqb (length ps) (length (map AConst cs)) | _ => false end) = true ->
   gapp known fuel cv cs = Ok v -> seq (ACall (AConst cv) (map AConst cs)) (AConst v).
 Proof.
-  intros Hl H n env N. destruct n as [|n]; [exfalso; apply N; reflexivity|].
+  intros Wc Wcs Fo Hl H n env N. destruct n as [|n]; [exfalso; apply N; reflexivity|].
   destruct n as [|n]; [exfalso; apply N; reflexivity|].
   rewrite (eval_S known (S n) env (ACall _ _)) in N. rewrite (eval_S known (S n) env (ACall _ _)).
   cbn [ref_step] in *.
   rewrite !eval_const' in N. rewrite !eval_const'. cbn [bind] in *.
   destruct cv; try discriminate. cbv beta iota in N |- *. rewrite Nat.eqb_sym in Hl. rewrite Hl in N. rewrite Hl.
   rewrite r_list_consts in N. rewrite r_list_consts. cbn [bind] in *.
-  rewrite (HG (S n) _ _ _ H N). reflexivity.
+  rewrite (gapp_ref known fuel _ _ _ Wc Wcs H Fo (S n) N). reflexivity.
 Qed.
 
 Lemma field_of_none rv m : closure_field rv m = false -> field_of rv m = None.
@@ -250,11 +198,12 @@ Proof.
 Qed.
 
 Lemma seq_method rv m ar cs v :
+  cwf rv -> Forall cwf cs -> fo v = true ->
   closure_field rv m = false -> method_arity rv m = Some ar -> arity_matches ar (length cs) = true ->
   run_method (gapp known fuel) rv m cs = Ok v ->
   seq (AMethod (AConst rv) m (map AConst cs)) (AConst v).
 Proof.
-  intros Hf Har Hm H n env N. destruct n as [|n]; [exfalso; apply N; reflexivity|].
+  intros Wr Wcs Fo Hf Har Hm H n env N. destruct n as [|n]; [exfalso; apply N; reflexivity|].
   destruct n as [|n]; [exfalso; apply N; reflexivity|].
   rewrite (eval_S known (S n) env (AMethod _ _ _)) in N. rewrite (eval_S known (S n) env (AMethod _ _ _)).
   cbn [ref_step] in *.
@@ -263,10 +212,17 @@ Proof.
   rewrite map_length in N. rewrite map_length.
   rewrite arity_matches_ok in Hm. rewrite Hm in N. rewrite Hm.
   rewrite r_list_consts in N. rewrite r_list_consts. cbn [bind] in *.
-  rewrite (run_method_agrees _ _ (HG (S n)) _ _ _ _ H N). reflexivity.
+  rewrite (method_ref known fuel _ _ _ _ Wr Wcs H Fo (S n) N). reflexivity.
 Qed.
 
-(* the node rules *)
+(* constants among optimized children are well-formed *)
+Lemma sidep_consts l cs : wf_list sidep l -> l = map AConst cs -> Forall cwf cs.
+Proof.
+  revert l. induction cs as [|c cs IH]; intros l W ->; constructor; cbn in W; [tauto|].
+  eapply IH; [|reflexivity]. tauto.
+Qed.
+
+(* ---------- the node rules: optimized form ---------- *)
 
 Lemma rule_if_arel s c c' t t' e e' :
   arel s c c' -> arel s t t' -> arel s e e' -> arel s (AIf c t e) (rule_if fl c' t' e').
@@ -284,7 +240,7 @@ Proof.
   destruct (is_const x') as [cv|] eqn:E; [|constructor; auto].
   apply is_const_spec in E. subst x'.
   destruct (ucalc op cv) eqn:U; try (constructor; auto; fail).
-  eapply ar_step; [constructor; eauto|]. apply seq_unary; auto.
+  apply konst_arel; [constructor; auto|apply closed_unary|apply seq_unary; auto].
 Qed.
 
 Lemma rule_op_arel s op x x' y y' :
@@ -300,10 +256,14 @@ Proof.
        | AOp op2 ia ib =>
            if str_eqb op2 op then
              match is_const ia with
-             | Some iac => match calc op iac bc with Ok co => AOp op (AConst co) ib | _ => AOp op x' (AConst bc) end
+             | Some iac => match calc op iac bc with
+                           | Ok co => if strict_ok fl co then AOp op (AConst co) ib else AOp op x' (AConst bc)
+                           | _ => AOp op x' (AConst bc) end
              | None =>
                  match is_const ib with
-                 | Some ibc => match calc op ibc bc with Ok co => AOp op ia (AConst co) | _ => AOp op x' (AConst bc) end
+                 | Some ibc => match calc op ibc bc with
+                               | Ok co => if strict_ok fl co then AOp op ia (AConst co) else AOp op x' (AConst bc)
+                               | _ => AOp op x' (AConst bc) end
                  | None => AOp op x' (AConst bc)
                  end
              end
@@ -319,16 +279,18 @@ Proof.
     destruct (is_const x'1) as [iac|] eqn:E1.
     - apply is_const_spec in E1. subst x'1.
       destruct (calc op iac bc) eqn:C; try (constructor; auto; fail).
+      destruct (strict_ok fl a); [|constructor; auto].
       eapply ar_regroup_l; eauto.
     - destruct (is_const x'2) as [ibc|] eqn:E2; [|constructor; auto].
       apply is_const_spec in E2. subst x'2.
       destruct (calc op ibc bc) eqn:C; try (constructor; auto; fail).
+      destruct (strict_ok fl a); [|constructor; auto].
       eapply ar_regroup_r; eauto. }
   destruct pure; [|exact Hcomm].
   destruct (is_const x') as [ac|] eqn:E; [|exact Hcomm].
   apply is_const_spec in E. subst x'.
   destruct (calc op ac bc) eqn:C; try (constructor; auto; fail).
-  eapply ar_step; [constructor; eauto|]. apply seq_op. eapply Hfold; eauto.
+  apply konst_arel; [constructor; auto|apply closed_op|]. apply seq_op. eapply Hfold; eauto.
 Qed.
 
 Lemma rule_list_arel s l l' : Forall2 (arel s) l l' -> arel s (AList l) (rule_list fl l').
@@ -336,7 +298,7 @@ Proof.
   intros Hl. unfold rule_list. destruct (f_list fl); [|constructor; auto].
   destruct (all_const l') as [vs|] eqn:E; [|constructor; auto].
   apply all_const_spec in E. subst l'.
-  eapply ar_step; [constructor; eauto|]. apply seq_list.
+  apply konst_arel; [constructor; auto|apply closed_list|apply seq_list].
 Qed.
 
 Lemma rule_index_arel s l l' i i' : arel s l l' -> arel s i i' -> arel s (AIndex l i) (rule_index fl l' i').
@@ -346,7 +308,7 @@ Proof.
   destruct (is_const i') as [iv|] eqn:E2; [|constructor; auto].
   apply is_const_spec in E1, E2. subst.
   destruct (access_list lv iv) eqn:A; try (constructor; auto; fail).
-  eapply ar_step; [constructor; eauto|]. apply seq_index; auto.
+  apply konst_arel; [constructor; auto|apply closed_index|apply seq_index; auto].
 Qed.
 
 Lemma rule_map_arel s m m' :
@@ -355,7 +317,7 @@ Proof.
   intros Hm. unfold rule_map. destruct (f_map fl); [|constructor; auto].
   destruct (all_const_map m') as [vs|] eqn:E; [|constructor; auto].
   apply all_const_map_spec in E. subst m'.
-  eapply ar_step; [constructor; eauto|]. apply seq_map.
+  apply konst_arel; [constructor; auto|apply closed_map|apply seq_map].
 Qed.
 
 Lemma rule_member_arel s m m' key : arel s m m' -> arel s (AMember m key) (rule_member fl m' key).
@@ -364,7 +326,7 @@ Proof.
   destruct (is_const m') as [mv|] eqn:E1; [|constructor; auto].
   apply is_const_spec in E1. subst.
   destruct (access_map mv key) eqn:A; try (constructor; auto; fail).
-  eapply ar_step; [constructor; eauto|]. apply seq_member; auto.
+  apply konst_arel; [constructor; auto|apply closed_member|apply seq_member; auto].
 Qed.
 
 Lemma rule_static_arel s f args args' :
@@ -376,13 +338,14 @@ Proof.
   destruct (all_const args') as [cs|] eqn:E; [|constructor; auto].
   apply all_const_spec in E. subst args'.
   destruct (run_static f cs) eqn:Rs; try (constructor; auto; fail).
-  eapply ar_step; [constructor; eauto|]. eapply seq_static; eauto.
+  apply konst_arel; [constructor; auto|apply closed_static|eapply seq_static; eauto].
 Qed.
 
 Lemma rule_call_arel s fn fn' args args' :
-  arel s fn fn' -> Forall2 (arel s) args args' -> arel s (ACall fn args) (rule_call fl known fuel fn' args').
+  arel s fn fn' -> Forall2 (arel s) args args' -> sidep fn' -> wf_list sidep args' ->
+  arel s (ACall fn args) (rule_call fl known fuel fn' args').
 Proof.
-  intros Hf Ha. unfold rule_call.
+  intros Hf Ha Sf Sa. unfold rule_call.
   destruct (is_const fn') as [cv|] eqn:E1; [|constructor; auto].
   apply is_const_spec in E1. subst fn'.
   destruct (f_closure fl); [|constructor; auto].
@@ -392,14 +355,16 @@ Proof.
   destruct (all_const args') as [cs|] eqn:E; [|constructor; auto].
   apply all_const_spec in E. subst args'.
   destruct (gapp known fuel (VClo ps body cap self) cs) eqn:G; try (constructor; auto; fail).
-  eapply ar_step; [constructor; eauto|]. eapply seq_call; eauto.
+  unfold konst. destruct (strict_ok fl a) eqn:So; [|constructor; auto].
+  eapply ar_step; [constructor; eauto|apply closed_call|].
+  eapply seq_call; eauto; [eapply sidep_consts; eauto|apply strict_ok_fo; auto].
 Qed.
 
 Lemma rule_method_arel s recv recv' m args args' :
-  arel s recv recv' -> Forall2 (arel s) args args' ->
+  arel s recv recv' -> Forall2 (arel s) args args' -> sidep recv' -> wf_list sidep args' ->
   arel s (AMethod recv m args) (rule_method fl known fuel recv' m args').
 Proof.
-  intros Hr Ha. unfold rule_method.
+  intros Hr Ha Sr Sa. unfold rule_method.
   destruct (is_const recv') as [rv|] eqn:E1; [|constructor; auto].
   apply is_const_spec in E1. subst recv'.
   rewrite Hfc, Hmap. cbn [andb].
@@ -411,17 +376,144 @@ Proof.
   destruct (method_pure fl rv m); [|constructor; auto].
   destruct (arity_matches ar (length cs)) eqn:Am; [|constructor; auto].
   destruct (run_method (gapp known fuel) rv m cs) eqn:Rm; try (constructor; auto; fail).
-  eapply ar_step; [constructor; eauto|]. eapply seq_method; eauto.
+  unfold konst. destruct (strict_ok fl a) eqn:So; [|constructor; auto].
+  eapply ar_step; [constructor; eauto|apply closed_method|].
+  eapply seq_method; eauto; [eapply sidep_consts; eauto|apply strict_ok_fo; auto].
 Qed.
 
-Lemma rule_closure_arel s s' ps b b' outer outer' r this :
-  arel s' b b' -> s' = sdrop (ps ++ this_names this) s ->
+Lemma rule_closure_arel s ps b b' outer outer' r this :
+  arel (sdrop (ps ++ this_names this) s) b b' -> sidep b' ->
   arel s (AClosure ps b outer r this) (rule_closure fl ps b' outer' r this).
 Proof.
-  intros Hb ->. unfold rule_closure. rewrite Hclo. constructor. auto.
+  intros Hb Sb. unfold rule_closure. destruct (f_closure fl); [|constructor; auto].
+  destruct outer'; [|constructor; auto]. destruct r; [constructor; auto|].
+  destruct (clo_const_ok fl ps b') eqn:C; [|constructor; auto].
+  unfold clo_const_ok in C. apply andb_true_iff in C. destruct C as [G _].
+  destruct (gen_check_closed _ _ _ G Sb) as [_ Hcl].
+  apply ar_closure_fold; auto.
 Qed.
 
-(* the traversal *)
+(* ---------- the node rules: the side conditions are kept ---------- *)
+
+Lemma rule_if_side c t e : sidep c -> sidep t -> sidep e -> sidep (rule_if fl c t e).
+Proof.
+  intros. unfold rule_if. destruct (f_tobool fl); cbn [sidep]; auto.
+  destruct (is_const c); cbn [sidep]; auto. destruct (to_bool v) as [[|]|]; cbn [sidep]; auto.
+Qed.
+
+Lemma rule_unary_side op x : sidep x -> sidep (rule_unary fl op x).
+Proof.
+  intros. unfold rule_unary. destruct (mem_name op (f_unary fl)); cbn [sidep]; auto.
+  destruct (is_const x); cbn [sidep]; auto. destruct (ucalc op v); cbn [sidep]; auto.
+  apply konst_side; auto.
+Qed.
+
+Lemma rule_op_side op x y : sidep x -> sidep y -> sidep (rule_op fl op x y).
+Proof.
+  intros Sx Sy. unfold rule_op.
+  destruct (op_flags fl op) as [[pure comm]|]; [|cbn [sidep]; auto].
+  destruct (is_const y) as [bc|]; [|cbn [sidep]; auto].
+  assert (So : sidep (AOp op x y)) by (cbn [sidep]; auto).
+  assert (Hc : sidep
+    (if comm then
+       match x with
+       | AOp op2 ia ib =>
+           if str_eqb op2 op then
+             match is_const ia with
+             | Some iac => match calc op iac bc with
+                           | Ok co => if strict_ok fl co then AOp op (AConst co) ib else AOp op x y
+                           | _ => AOp op x y end
+             | None =>
+                 match is_const ib with
+                 | Some ibc => match calc op ibc bc with
+                               | Ok co => if strict_ok fl co then AOp op ia (AConst co) else AOp op x y
+                               | _ => AOp op x y end
+                 | None => AOp op x y
+                 end
+             end
+           else AOp op x y
+       | _ => AOp op x y
+       end
+     else AOp op x y)).
+  { destruct comm; auto. destruct x; auto. destruct (str_eqb op0 op); auto.
+    cbn [sidep] in Sx. destruct Sx as [S1 S2].
+    destruct (is_const x1).
+    - destruct (calc op v bc); auto. destruct (strict_ok fl a) eqn:E; auto.
+      cbn [sidep]. split; auto. apply fo_cwf, strict_ok_fo; auto.
+    - destruct (is_const x2); auto. destruct (calc op v bc); auto. destruct (strict_ok fl a) eqn:E; auto.
+      cbn [sidep]. split; auto. apply fo_cwf, strict_ok_fo; auto. }
+  destruct pure; auto. destruct (is_const x); auto. destruct (calc op v bc); auto.
+  apply konst_side; auto.
+Qed.
+
+Lemma rule_list_side l : wf_list sidep l -> sidep (rule_list fl l).
+Proof.
+  intros. unfold rule_list. destruct (f_list fl); cbn [sidep]; auto.
+  destruct (all_const l); cbn [sidep]; auto. apply konst_side; auto.
+Qed.
+
+Lemma rule_index_side l i : sidep l -> sidep i -> sidep (rule_index fl l i).
+Proof.
+  intros. unfold rule_index. destruct (f_list fl); cbn [sidep]; auto.
+  destruct (is_const l); cbn [sidep]; auto. destruct (is_const i); cbn [sidep]; auto.
+  destruct (access_list v v0); cbn [sidep]; auto. apply konst_side; cbn [sidep]; auto.
+Qed.
+
+Lemma rule_map_side m : wf_entries sidep m -> sidep (rule_map fl m).
+Proof.
+  intros. unfold rule_map. destruct (f_map fl); cbn [sidep]; auto.
+  destruct (all_const_map m); cbn [sidep]; auto. apply konst_side; auto.
+Qed.
+
+Lemma rule_member_side m k : sidep m -> sidep (rule_member fl m k).
+Proof.
+  intros. unfold rule_member. destruct (f_map fl); cbn [sidep]; auto.
+  destruct (is_const m); cbn [sidep]; auto. destruct (access_map v k); cbn [sidep]; auto.
+  apply konst_side; auto.
+Qed.
+
+Lemma rule_static_side f args : wf_list sidep args -> sidep (rule_static fl f args).
+Proof.
+  intros. unfold rule_static. destruct (static_pure fl f); cbn [sidep]; auto.
+  destruct (static_arity f); cbn [sidep]; auto. destruct (arity_matches a (length args)); cbn [sidep]; auto.
+  destruct (all_const args); cbn [sidep]; auto. destruct (run_static f l); cbn [sidep]; auto.
+  apply konst_side; auto.
+Qed.
+
+Lemma rule_call_side fn args : sidep fn -> wf_list sidep args -> sidep (rule_call fl known fuel fn args).
+Proof.
+  intros Sf Sa. assert (So : sidep (ACall fn args)) by (cbn [sidep]; auto).
+  unfold rule_call. destruct (is_const fn); auto. destruct (f_closure fl); auto.
+  destruct v; auto. destruct (clo_value_pure fl _); auto.
+  destruct (Nat.eqb (length ps) (length args)); auto. destruct (all_const args); auto.
+  destruct (gapp known fuel _ l); auto. apply konst_side; auto.
+Qed.
+
+Lemma rule_method_side recv m args :
+  sidep recv -> wf_list sidep args -> sidep (rule_method fl known fuel recv m args).
+Proof.
+  intros Sr Sa. assert (So : sidep (AMethod recv m args)) by (cbn [sidep]; auto).
+  unfold rule_method. destruct (is_const recv); auto.
+  destruct (f_fieldcheck fl && f_map fl && closure_field v m); auto.
+  destruct (all_const args); auto. destruct (f_method fl); auto.
+  destruct (method_arity v m); auto. destruct (method_pure fl v m); auto.
+  destruct (arity_matches a (length l)); auto. destruct (run_method _ v m l); auto.
+  apply konst_side; auto.
+Qed.
+
+Lemma rule_closure_side ps b outer r this :
+  match this with [] => True | _ => mem_name this outer = false end -> sidep b ->
+  sidep (rule_closure fl ps b outer r this).
+Proof.
+  intros St Sb. assert (So : sidep (AClosure ps b outer r this)) by (cbn [sidep]; auto).
+  unfold rule_closure. destruct (f_closure fl); auto. destruct outer; auto. destruct r; auto.
+  destruct (clo_const_ok fl ps b) eqn:C; auto.
+  unfold clo_const_ok in C. apply andb_true_iff in C. destruct C as [G _].
+  destruct (gen_check_closed _ _ _ G Sb) as [W _].
+  cbn [sidep cwf]. auto.
+Qed.
+
+(* ---------- the traversal ---------- *)
 
 Definition opt_cases (deep : bool) (s : list (name * value)) (cases : list (ast * ast)) : list (ast * ast) :=
   map (fun c => (opt false s (fst c), opt deep s (snd c))) cases.
@@ -475,103 +567,129 @@ Lemma opt_eq_method deep s recv m args :
   else AMethod (opt deep s recv) m (map (opt deep s) args).
 Proof. reflexivity. Qed.
 
-Lemma consts_fo_list l : consts_fo (AList l) = forallb consts_fo l.
-Proof. reflexivity. Qed.
-Lemma consts_fo_call fn args : consts_fo (ACall fn args) = consts_fo fn && forallb consts_fo args.
-Proof. reflexivity. Qed.
-Lemma consts_fo_static f args : consts_fo (AStatic f args) = forallb consts_fo args.
-Proof. reflexivity. Qed.
-Lemma consts_fo_method recv m args : consts_fo (AMethod recv m args) = consts_fo recv && forallb consts_fo args.
-Proof. reflexivity. Qed.
-Lemma consts_fo_map m : consts_fo (AMap m) = forallb (fun e => consts_fo (snd e)) m.
-Proof. cbn [consts_fo]. induction m as [|[k x] m IH]; [reflexivity|]. cbn [forallb snd]. rewrite <- IH. reflexivity. Qed.
-Lemma consts_fo_switch v cases d :
-  consts_fo (ASwitch v cases d) =
-  consts_fo v && consts_fo d && forallb (fun c => consts_fo (fst c) && consts_fo (snd c)) cases.
+Definition scwf (s : list (name * value)) : Prop := forall x c, lookup x s = Some c -> cwf c.
+
+Lemma scwf_sdrop D s : scwf s -> scwf (sdrop D s).
 Proof.
-  cbn [consts_fo]. f_equal. induction cases as [|[cc cr] cases IH]; [reflexivity|].
-  rewrite IH. reflexivity.
+  intros H x c. rewrite lookup_sdrop. destruct (mem_name x D); [discriminate|]. apply H.
 Qed.
 
-Definition Popt (a : ast) : Prop :=
-  forall deep s, consts_fo a = true -> arel s a (opt deep s a).
-
-Lemma Forall2_map_opt deep s l :
-  Forall Popt l -> forallb consts_fo l = true -> Forall2 (arel s) l (map (opt deep s) l).
+Lemma scwf_cons x c s : cwf c -> scwf s -> scwf ((x, c) :: s).
 Proof.
-  induction 1 as [|x l Hx Hl IH]; cbn [forallb map]; intros H; [constructor|].
-  apply andb_true_iff in H. destruct H. constructor; auto.
+  intros Hc H y k. simpl. destruct (str_eqb y x); [intros E; inv E; auto|apply H].
+Qed.
+
+(* the source program: first-order constants, and the own name of a closure literal is not among its
+   OuterIdents (Sim.side_ok: what the parser produces without an optimizer) *)
+Definition Popt (a : ast) : Prop :=
+  forall deep s, side_ok a = true -> scwf s -> arel s a (opt deep s a) /\ sidep (opt deep s a).
+
+Lemma Popt_list deep s l :
+  Forall Popt l -> forallb side_ok l = true -> scwf s ->
+  Forall2 (arel s) l (map (opt deep s) l) /\ wf_list sidep (map (opt deep s) l).
+Proof.
+  induction 1 as [|x l Hx Hl IH]; cbn [forallb map wf_list]; intros H Ss; [split; [constructor|exact I]|].
+  apply andb_true_iff in H. destruct H as [H1 H2].
+  destruct (Hx deep s H1 Ss). destruct (IH H2 Ss). split; [constructor|]; auto.
+Qed.
+
+Lemma mem_name_filter x (f : name -> bool) l : mem_name x l = false -> mem_name x (filter f l) = false.
+Proof.
+  induction l as [|y l IH]; simpl; auto. intros H. apply orb_false_iff in H. destruct H as [H1 H2].
+  destruct (f y); simpl; [rewrite H1|]; auto.
 Qed.
 
 Theorem opt_arel : forall a, Popt a.
 Proof.
-  induction a using ast_ind2; unfold Popt in *; intros deep s C.
-  - (* const *) cbn [Opt.opt]. constructor. apply fo_vrel. exact C.
-  - (* ident *) cbn [Opt.opt]. destruct (lookup x s) eqn:L; constructor; auto.
-  - (* let *) rewrite opt_eq_let. cbn [consts_fo] in C. apply andb_true_iff in C. destruct C as [C1 C2].
-    pose proof (IHa1 true s C1) as Hv.
+  induction a using ast_ind2; unfold Popt in *; intros deep s C Ss.
+  - (* const *) cbn [Opt.opt side_ok] in *. split; [constructor; apply fo_ovrel; exact C|apply fo_cwf; exact C].
+  - (* ident *) cbn [Opt.opt]. destruct (lookup x s) eqn:L.
+    + split; [constructor; auto|cbn [sidep]; eapply Ss; eauto].
+    + split; [constructor; auto|exact I].
+  - (* let *) rewrite opt_eq_let. cbn [side_ok] in C. apply andb_true_iff in C. destruct C as [C1 C2].
+    destruct (IHa1 true s C1 Ss) as [Hv Sv].
     destruct (opt true s a1) eqn:E;
-      try (apply ar_let; [exact Hv|apply IHa2; exact C2]).
-    eapply ar_let_const; [exact Hv|apply IHa2; exact C2].
-  - (* if *) cbn [Opt.opt]. cbn [consts_fo] in C.
+      try (destruct (IHa2 deep (sdrop [x] s) C2 (scwf_sdrop _ _ Ss)) as [Hb Sb];
+           split; [apply ar_let; assumption|cbn [sidep] in *; auto]).
+    destruct (IHa2 deep ((x, v) :: s) C2 (scwf_cons _ _ _ Sv Ss)) as [Hb Sb].
+    split; [eapply ar_let_const; eauto|exact Sb].
+  - (* if *) cbn [Opt.opt]. cbn [side_ok] in C.
     apply andb_true_iff in C. destruct C as [C C3]. apply andb_true_iff in C. destruct C as [C1 C2].
-    destruct deep; [apply rule_if_arel; auto|constructor; auto].
-  - (* switch *) rewrite opt_eq_switch. rewrite consts_fo_switch in C.
+    destruct (IHa1 deep s C1 Ss), (IHa2 deep s C2 Ss), (IHa3 deep s C3 Ss).
+    destruct deep; split; try (apply rule_if_arel; auto); try (apply rule_if_side; auto);
+      try (constructor; auto); cbn [sidep]; auto.
+  - (* switch *) rewrite opt_eq_switch. cbn [side_ok] in C.
     apply andb_true_iff in C. destruct C as [C C3]. apply andb_true_iff in C. destruct C as [C1 C2].
-    constructor; auto. unfold opt_cases.
-    induction H as [|[cc cr] cases [Hc1 Hc2] Hcs IH]; cbn [forallb map fst snd] in *; [constructor|].
-    apply andb_true_iff in C3. destruct C3 as [C3 C4]. apply andb_true_iff in C3. destruct C3.
-    constructor; [cbn [fst snd] in *; split; auto|auto].
-  - (* try *) cbn [Opt.opt]. cbn [consts_fo] in C. apply andb_true_iff in C. destruct C.
-    constructor; auto.
-  - (* unary *) cbn [Opt.opt]. cbn [consts_fo] in C.
-    destruct deep; [apply rule_unary_arel; auto|constructor; auto].
-  - (* op *) cbn [Opt.opt]. cbn [consts_fo] in C. apply andb_true_iff in C. destruct C.
-    destruct deep; [apply rule_op_arel; auto|constructor; auto].
-  - (* closure *) cbn [Opt.opt]. cbn [consts_fo] in C.
-    destruct deep; [eapply rule_closure_arel; eauto|constructor; auto].
-  - (* list *) rewrite opt_eq_list. rewrite consts_fo_list in C.
-    pose proof (Forall2_map_opt deep s _ H C).
-    destruct deep; [apply rule_list_arel; auto|constructor; auto].
-  - (* index *) cbn [Opt.opt]. cbn [consts_fo] in C. apply andb_true_iff in C. destruct C.
-    destruct deep; [apply rule_index_arel; auto|constructor; auto].
-  - (* map *) rewrite opt_eq_map. rewrite consts_fo_map in C.
-    assert (HH : Forall2 (fun e e' => fst e = fst e' /\ arel s (snd e) (snd e')) m (opt_entries deep s m)).
-    { unfold opt_entries. induction H as [|[k x] m Hx Hm IH]; cbn [forallb map fst snd] in *; [constructor|].
-      apply andb_true_iff in C. destruct C. constructor; [cbn [fst snd] in *; split; auto|auto]. }
-    destruct deep; [apply rule_map_arel; auto|constructor; auto].
-  - (* member *) cbn [Opt.opt]. cbn [consts_fo] in C.
-    destruct deep; [apply rule_member_arel; auto|constructor; auto].
-  - (* call *) rewrite opt_eq_call. rewrite consts_fo_call in C. apply andb_true_iff in C. destruct C as [C1 C2].
-    pose proof (Forall2_map_opt deep s _ H C2).
-    destruct deep; [apply rule_call_arel; auto|constructor; auto].
-  - (* static *) rewrite opt_eq_static. rewrite consts_fo_static in C.
-    pose proof (Forall2_map_opt deep s _ H C).
-    destruct deep; [apply rule_static_arel; auto|constructor; auto].
-  - (* method *) rewrite opt_eq_method. rewrite consts_fo_method in C. apply andb_true_iff in C. destruct C as [C1 C2].
-    pose proof (Forall2_map_opt deep s _ H C2).
-    destruct deep; [apply rule_method_arel; auto|constructor; auto].
+    destruct (IHa1 deep s C1 Ss), (IHa2 deep s C2 Ss).
+    assert (HH : Forall2 (fun c c' => arel s (fst c) (fst c') /\ arel s (snd c) (snd c')) cases (opt_cases deep s cases)
+                 /\ wf_cases sidep (opt_cases deep s cases)).
+    { unfold opt_cases. clear H0 H1 H2 H3.
+      induction H as [|[cc cr] cases [Hc1 Hc2] Hcs IH]; cbn [forallb map fst snd wf_cases] in *; [split; [constructor|exact I]|].
+      apply andb_true_iff in C3. destruct C3 as [C3 C4]. apply andb_true_iff in C3. destruct C3 as [C5 C6].
+      destruct (Hc1 false s C5 Ss), (Hc2 deep s C6 Ss), (IH C4).
+      split; [constructor; [cbn [fst snd]; split; auto|auto]|cbn [fst snd]; auto]. }
+    destruct HH. split; [constructor; auto|cbn [sidep]; auto].
+  - (* try *) cbn [Opt.opt]. cbn [side_ok] in C. apply andb_true_iff in C. destruct C as [C1 C2].
+    destruct (IHa1 deep s C1 Ss), (IHa2 deep s C2 Ss). split; [constructor; auto|cbn [sidep]; auto].
+  - (* unary *) cbn [Opt.opt]. cbn [side_ok] in C. destruct (IHa deep s C Ss).
+    destruct deep; split; try (apply rule_unary_arel; auto); try (apply rule_unary_side; auto);
+      try (constructor; auto); cbn [sidep]; auto.
+  - (* op *) cbn [Opt.opt]. cbn [side_ok] in C. apply andb_true_iff in C. destruct C as [C1 C2].
+    destruct (IHa1 deep s C1 Ss), (IHa2 deep s C2 Ss).
+    destruct deep; split; try (apply rule_op_arel; auto); try (apply rule_op_side; auto);
+      try (constructor; auto); cbn [sidep]; auto.
+  - (* closure *) cbn [Opt.opt]. cbn [side_ok] in C. apply andb_true_iff in C. destruct C as [C1 C2].
+    destruct (IHa deep (sdrop (ps ++ this_names this) s) C2 (scwf_sdrop _ _ Ss)) as [Hb Sb].
+    assert (St : match this with [] => True | _ => mem_name this (outer_minus s outer) = false end).
+    { destruct this; [exact I|]. apply mem_name_filter. apply negb_true_iff. exact C1. }
+    destruct deep; split; try (apply rule_closure_arel; auto); try (apply rule_closure_side; auto);
+      try (constructor; auto); cbn [sidep]; auto.
+  - (* list *) rewrite opt_eq_list. cbn [side_ok] in C. destruct (Popt_list deep s _ H C Ss).
+    destruct deep; split; try (apply rule_list_arel; auto); try (apply rule_list_side; auto);
+      try (constructor; auto); cbn [sidep]; auto.
+  - (* index *) cbn [Opt.opt]. cbn [side_ok] in C. apply andb_true_iff in C. destruct C as [C1 C2].
+    destruct (IHa1 deep s C1 Ss), (IHa2 deep s C2 Ss).
+    destruct deep; split; try (apply rule_index_arel; auto); try (apply rule_index_side; auto);
+      try (constructor; auto); cbn [sidep]; auto.
+  - (* map *) rewrite opt_eq_map. cbn [side_ok] in C.
+    assert (HH : Forall2 (fun e e' => fst e = fst e' /\ arel s (snd e) (snd e')) m (opt_entries deep s m)
+                 /\ wf_entries sidep (opt_entries deep s m)).
+    { unfold opt_entries. induction H as [|[k x] m Hx Hm IH]; cbn [forallb map fst snd wf_entries] in *; [split; [constructor|exact I]|].
+      apply andb_true_iff in C. destruct C as [C1 C2]. destruct (Hx deep s C1 Ss), (IH C2).
+      split; [constructor; [cbn [fst snd]; split; auto|auto]|cbn [fst snd]; auto]. }
+    destruct HH.
+    destruct deep; split; try (apply rule_map_arel; auto); try (apply rule_map_side; auto);
+      try (constructor; auto); cbn [sidep]; auto.
+  - (* member *) cbn [Opt.opt]. cbn [side_ok] in C. destruct (IHa deep s C Ss).
+    destruct deep; split; try (apply rule_member_arel; auto); try (apply rule_member_side; auto);
+      try (constructor; auto); cbn [sidep]; auto.
+  - (* call *) rewrite opt_eq_call. cbn [side_ok] in C. apply andb_true_iff in C. destruct C as [C1 C2].
+    destruct (IHa deep s C1 Ss). destruct (Popt_list deep s _ H C2 Ss).
+    destruct deep; split; try (apply rule_call_arel; auto); try (apply rule_call_side; auto);
+      try (constructor; auto); cbn [sidep]; auto.
+  - (* static *) rewrite opt_eq_static. cbn [side_ok] in C. destruct (Popt_list deep s _ H C Ss).
+    destruct deep; split; try (apply rule_static_arel; auto); try (apply rule_static_side; auto);
+      try (constructor; auto); cbn [sidep]; auto.
+  - (* method *) rewrite opt_eq_method. cbn [side_ok] in C. apply andb_true_iff in C. destruct C as [C1 C2].
+    destruct (IHa deep s C1 Ss). destruct (Popt_list deep s _ H C2 Ss).
+    destruct deep; split; try (apply rule_method_arel; auto); try (apply rule_method_side; auto);
+      try (constructor; auto); cbn [sidep]; auto.
 Qed.
 
-(* ---------- soundness of the optimizer model ---------- *)
+(* ---------- soundness of the (strict) optimizer model ---------- *)
 
-Lemma env_rel_refl env :
-  (forall x v, lookup x env = Some v -> vrel v v) -> OptRel.env_rel known [] env env.
-Proof.
-  intros H. split; [intros x c L; discriminate|]. intros x _.
-  destruct (lookup x env) eqn:L; constructor. eauto.
-Qed.
-
-Theorem optimize_sound_gen : forall n env a,
-  consts_fo a = true ->
+Theorem optimize_sound_strict : forall n m env a,
+  side_ok a = true ->
   (forall x v, lookup x env = Some v -> vrel v v) ->
+  n <= m ->
   decided (eval n env a) ->
-  wrel vrel (eval n env a) (eval n env (optimize fl known fuel a)).
+  wrel vrel (eval n env a) (eval m env (optimize fl known fuel a)).
 Proof.
-  intros n env a C He D.
+  intros n m env a C He L D.
   eapply (sim known n); eauto.
-  - apply opt_arel. exact C.
-  - apply env_rel_refl. exact He.
+  - apply opt_arel; [exact C|]. intros x c E. discriminate.
+  - split; [intros x c E; discriminate|]. intros x _ _.
+    destruct (lookup x env) eqn:E; constructor. eauto.
 Qed.
 
 End OptArel.
